@@ -11,7 +11,8 @@ RULE = ('For every index entry that selects a transaction map: documents built b
         'entered through their first segment, admissible values per type/length/code list/syntax notes, HL/LX/control numbers '
         'consistent), 1..2 interchanges x 1..2 groups x 1..3 sets, structural choices = Hypothesis draws. A generated segment is '
         'kept only if the first group of candidate nodes in scan order contains exactly the intended node (unambiguity). Thorough '
-        'adds target mode: every segment node of every map is forced into >=3 documents. Non-trivial = >=8 body segments and >=1 '
+        'adds target mode: every segment node of every map is forced into >=3 documents. Both tiers add mixed interchanges: 2..4 groups '
+        'drawn from two or three transaction maps of one ISA version in one interchange (A B A patterns included). Non-trivial = >=8 body segments and >=1 '
         'situational node used; distinct by digest of the intended-node sequence.')
 ASSUMPTIONS = ['vpx/mapmodel.py reading of the map XML and the published matching rule (id + qualifier) used for the unambiguity filter',
                'wrapper loops (HEADER/DETAIL/FOOTER/TABLE*) are transparent; values avoid ~ * : ^']
@@ -176,6 +177,82 @@ def run_entry(entry, n, seed, acc, tier, checker=None, flavor='plain'):
     core.hyp_collect(case(), chk, n, seed, acc, case_timeout=120)
 
 
+def mixed_pool(icvn):
+    """entries that may share an interchange: the transaction maps of one ISA version (not the acknowledgement entries, whose
+    GS08 variants are the subject of a known finding, and not the maps that cannot be loaded or selected)"""
+    return [e for e in entries() if e['icvn'] == icvn and e['fic'] != 'FA' and not e['file'].startswith(('830.', '841.'))]
+
+
+_loop_paths = {}
+
+
+def _common_loops(f1, f2):
+    """number of loop paths (below the set level) the two maps have in common"""
+    def paths(f):
+        if f not in _loop_paths:
+            root = mm.load_map(f)
+            _loop_paths[f] = set(mm.path(n) for n in mm.walk(root) if n.kind == 'loop' and n.id not in ('ISA_LOOP', 'GS_LOOP', 'ST_LOOP')
+                                 and n.id not in ('HEADER', 'DETAIL', 'FOOTER'))
+        return _loop_paths[f]
+    return len(paths(f1) & paths(f2))
+
+
+def build_mixed(ch, flavor='plain', values_avoid='~*:^'):
+    """-> Doc: one interchange, 2..4 functional groups drawn from two or three maps of one version (A B A patterns included)"""
+    icvn = ch.choice(['00401', '00401', '00501'])
+    pool = mixed_pool(icvn)
+    picks = [pool[ch.integer(0, len(pool) - 1)] for _ in range(ch.choice([2, 2, 3]))]
+    if ch.chance(.6):
+        # a partner that is easy to confuse with the first pick: another map that has loops of the same path
+        near = [e for e in pool if e['file'] != picks[0]['file'] for _ in range(min(12, _common_loops(picks[0]['file'], e['file'])))]
+        if near:
+            picks[1] = near[ch.integer(0, len(near) - 1)]
+    seq = picks[:2] + [picks[ch.integer(0, len(picks) - 1)] for _ in range(ch.choice([0, 1, 1, 2]))]
+    docs = []
+    for e in seq:
+        kw = dict(p_seg=ch.choice([.15, .3, .5]), p_loop=ch.choice([.15, .3, .5]), max_rep=ch.choice([2, 3]), shape=(1, 1, ch.choice([1, 1, 2])), max_segs=150)
+        d = None
+        for attempt in range(5):
+            try:
+                d = docgen.build_doc(e, ch, values=docgen.Values(values_avoid, flavor, icvn), **kw)
+                break
+            except docgen.GenFail:
+                kw = dict(kw, p_loop=kw['p_loop'] * .4, p_seg=kw['p_seg'] * .7)
+                if attempt >= 2:
+                    kw['p_loop'] = 0.0
+        if d is None:
+            raise docgen.GenFail('mixed part %s' % e['file'])
+        docs.append(d)
+    return docgen.merge_docs(docs)
+
+
+def run_mixed(n, seed, acc, tier, checker=None):
+    from hypothesis import strategies as st
+    checker = checker or check_case
+
+    @st.composite
+    def case(draw):
+        ch = docgen.HypChooser(draw)
+        try:
+            doc = build_mixed(ch)
+        except docgen.GenFail as e:
+            return {'genfail': str(e)[:200]}
+        c = make_case(doc, ['mixed-maps'])
+        files = [e['file'] for e in doc.parts]
+        c['meta']['file'] = 'mixed'
+        c['meta']['parts'] = files
+        if len(files) > 2 and files[0] in files[2:] and files[1] != files[0]:
+            c['meta']['tags'] = sorted(set(c['meta']['tags']) | {'mixed-maps:returns-to-earlier-map'})
+        return c
+
+    def chk(c):
+        if 'genfail' in c:
+            return core.Outcome(classes=['genfail:mixed'])
+        return checker(c)
+
+    core.hyp_collect(case(), chk, n, seed, acc, case_timeout=120)
+
+
 def run_targets(entry, seed, acc, per_node, checker=None):
     """thorough: force every segment node of the map into per_node documents (PRNG chooser seeded from VERIF_SEED)"""
     checker = checker or check_case
@@ -219,11 +296,16 @@ def shards(tier, seed):
         s.append({'kind': 'random', 'entry': e, 'i': i, 'n': 120 if tier == 'thorough' else 14})
         if tier == 'thorough':
             s.append({'kind': 'targets', 'entry': e, 'i': i, 'per_node': 3})
+    for i in range(8):
+        s.append({'kind': 'mixed', 'i': 100 + i, 'n': 60 if tier == 'thorough' else 10})
     return s
 
 
 def run_shard(spec, seed, tier):
     acc = core.Acc()
+    if spec['kind'] == 'mixed':
+        run_mixed(spec['n'], seed * 1000 + spec['i'], acc, tier)
+        return acc
     e = spec['entry']
     try:
         mm.load_map(e['file'])
